@@ -717,7 +717,6 @@ def documentedSites : List (String × String × String) := [
   ("disparity_checking", "raise", "cst.PANDORA_MSK_PIXEL_OCCLUSION"),
   ("disparity_checking", "raise", "(cst.PANDORA_MSK_PIXEL_MISMATCH * comp).astype(np.uint16)"),
   ("disparity_checking", "sub", "(cst.PANDORA_MSK_PIXEL_OCCLUSION * comp).astype(np.uint16)"),
-  ("disparity_checking", "raise", "cst.PANDORA_MSK_PIXEL_OCCLUSION"),
   ("interpolate_occlusion_mc_cnn", "sub", "cst.PANDORA_MSK_PIXEL_OCCLUSION * msk[arg_valid]"),
   ("interpolate_occlusion_mc_cnn", "raise", "cst.PANDORA_MSK_PIXEL_FILLED_OCCLUSION * msk[arg_valid]"),
   ("interpolate_occlusion_mc_cnn", "sub", "cst.PANDORA_MSK_PIXEL_OCCLUSION * msk[arg_valid]"),
